@@ -5,7 +5,7 @@ import QV.Spec.CxxLit
 /-!
   Driver handlers of C16.
     (c16-inv "qml" "Type" (objs (o "name" (props (p "n" CODE)…) (cbs (cb "signal" (uses …) (lits …))…))…))
-        CODE = (e dyn|const OBSERVERS (uses max|min|log|tr …) (lits (q "s")|(c "s") …)) | (g (p "n" CODE)…)
+        CODE = (e dyn|const OBSERVERS (uses max|min|log|tr|fmod …) (lits (q "s")|(c "s") …)) | (g (p "n" CODE)…)
       → (inv (includes …) (calls …) (index …) (defs …) (guard none|N) (observers ("name" N)…) (lits (q "sp")…))
     (c16-lit "s" style)         → (lit (q "sp") (c "sp") (c "sp"))      model of formatStringLiteral
     (spec-cxxlit u16|narrow "spelling"…) → (decoded (units …)|(ill-formed) …)   Spec.CxxLit
@@ -32,6 +32,7 @@ private def builtin? : Sexp → Option Builtin
   | .atom "min" => some .min
   | .atom "log" => some .log
   | .atom "tr" => some .tr
+  | .atom "fmod" => some .fmod
   | _ => none
 
 private def lit? : Sexp → Option (Bool × List Char)
